@@ -223,7 +223,7 @@ func (s *Scn) GenTx(view *simnode.Node, mix Mix) (*types.Transaction, string) {
 	}
 	_ = is
 	// fee: usually twice the current fee
-	f := fee.CalculateFee(view.App.ValidatorsCache.NetworkSize(), st.FeePerGas(), tx)
+	f := fee.CalculateFee(view.App.ValidatorsCache.NetworkSize(), FeeRate(view), tx)
 	tx.MaxFee = new(big.Int).Mul(f, big.NewInt(2))
 	if t.Choose("tx.tips", 8) == 0 {
 		tx.Tips = new(big.Int).Div(f, big.NewInt(3))
@@ -454,7 +454,17 @@ func (s *Scn) NoteAccepted(tx *types.Transaction) {
 func (s *Scn) OnlineTx(view *simnode.Node, id *Ident) *types.Transaction {
 	nonce, epoch := s.NextNonce(view, id)
 	tx := &types.Transaction{AccountNonce: nonce, Epoch: epoch, Type: types.OnlineStatusTx, Payload: attachments.CreateOnlineStatusAttachment(true)}
-	f := fee.CalculateFee(view.App.ValidatorsCache.NetworkSize(), view.App.State.FeePerGas(), tx)
+	f := fee.CalculateFee(view.App.ValidatorsCache.NetworkSize(), FeeRate(view), tx)
 	tx.MaxFee = new(big.Int).Mul(f, big.NewInt(3))
 	return s.sign(tx, id)
+}
+
+// FeeRate is the fee per gas a client has to offer: the current rate, at least the network's minimum.
+func FeeRate(view *simnode.Node) *big.Int {
+	min := fee.GetFeePerGasForNetwork(view.App.ValidatorsCache.NetworkSize())
+	cur := view.App.State.FeePerGas()
+	if cur == nil || cur.Cmp(min) < 0 {
+		return min
+	}
+	return cur
 }
